@@ -211,7 +211,7 @@ def run(ctx, report):
 
     dis = arch.method('x86_mn', '_dis')
     # -------------------------------------------------------------- D1 decoder
-    R1 = report.rule('C10.D1', 'decoder closure: no reachable raise / belief site other than the caught IOError', floor=12)
+    R1 = report.rule('C10.D1', 'decoder closure: no reachable raise / belief site other than the caught IOError', floor=6)
     tries = [n for n in walk_no_nested(dis) if isinstance(n, ast.Try)]
     caught = set()
     for t in tries:
